@@ -24,9 +24,9 @@
 (***************************************************************************)
 EXTENDS TraceBase, FiniteSets
 
-VARIABLES l, viol, drift, nchk, nleak
-vars == << l, viol, drift, nchk, nleak >>
-Init == l = 1 /\ viol = << >> /\ drift = << >> /\ nchk = 0 /\ nleak = 0
+VARIABLES l, viol, drift, nchk, nleak, hist
+vars == << l, viol, drift, nchk, nleak, hist >>
+Init == l = 1 /\ viol = << >> /\ drift = << >> /\ nchk = 0 /\ nleak = 0 /\ hist = << >>
 e == Rec[l]
 
 Sym(A, B) == (A \ B) \cup (B \ A)
@@ -61,9 +61,31 @@ DefOk(r) == \A k \in 1..Len(r.parties) :
 Confirmed(r, w) == \A k \in 1..Len(r.parties) :
                      Par({ t \in Tests(w) : r.parties[k].xt[t] = 1 }) = Par(Returned(w) \cap ToSet(r.parties[k].ones))
 
+\* ---- the masking bits must be random: history of the own bit vectors (events "abitx": [l, lp, ones]) --------------
+\* hist[<<l, lp>>] = [n |-> samples, cnt |-> position -> number of samples with a 1 there]
+AddSample(h, r) ==
+  LET k == << r.l, r.lp >>
+      on == ToSet(r.ones)
+      old == IF k \in DOMAIN h THEN h[k] ELSE [n |-> 0, cnt |-> [p \in 1..r.lp |-> 0]] IN
+  (k :> [n |-> old.n + 1, cnt |-> [p \in 1..r.lp |-> old.cnt[p] + (IF p \in on THEN 1 ELSE 0)]]) @@ h
+MinSamples == 40
+\* positions that held the same value in every one of at least MinSamples fresh bit vectors (chance 2^-39 each)
+Constant(h) == { << k, p >> \in UNION { { << kk, pp >> : pp \in 1..kk[2] } : kk \in DOMAIN h } :
+                   h[k].n >= MinSamples /\ (h[k].cnt[p] = 0 \/ h[k].cnt[p] = h[k].n) }
+HistViol(h) ==
+  LET c == Constant(h) IN
+  IF c = {} THEN << >>
+  ELSE LET x == CHOOSE y \in c : \A z \in c : y[2] >= z[2] IN
+       << [run |-> "history", p |-> 0, call |-> 0, ntests |-> 0, tests |-> {}, positions |-> { y[2] : y \in { z \in c : z[1] = x[1] } },
+           l |-> x[1][1], lp |-> x[1][2], confirmed |-> TRUE, combos |-> Cardinality(c),
+           constant |-> TRUE, samples |-> h[x[1]].n] >>
+
+\* (the "abitx" samples follow the "abit" events in the file: the history is judged on the last record)
 Next ==
   /\ l <= NRec /\ l' = l + 1
-  /\ IF e.ev # "abit" THEN UNCHANGED << viol, drift, nchk, nleak >>
+  /\ hist' = IF e.ev = "abitx" THEN AddSample(hist, e) ELSE hist
+  /\ IF e.ev # "abit" THEN /\ UNCHANGED << drift, nchk, nleak >>
+                           /\ viol' = IF l = NRec /\ e.ev = "abitx" /\ Len(viol) < 10 THEN viol \o HistViol(AddSample(hist, e)) ELSE viol
      ELSE LET lk == Leaks(e) IN
           /\ nchk' = nchk + 1
           /\ nleak' = nleak + (IF lk # {} THEN 1 ELSE 0)
@@ -75,8 +97,10 @@ Next ==
                      THEN LET w == CHOOSE x \in lk : \A y \in lk : Cardinality(Tests(x)) <= Cardinality(Tests(y)) IN
                           Append(viol, [run |-> e.run, p |-> 0, call |-> e.call, ntests |-> Cardinality(Tests(w)),
                                         tests |-> Tests(w), positions |-> Returned(w), l |-> e.l, lp |-> e.lp,
-                                        confirmed |-> Confirmed(e, w), combos |-> Cardinality(lk)])
+                                        confirmed |-> Confirmed(e, w), combos |-> Cardinality(lk),
+                                        constant |-> FALSE, samples |-> 0])
                      ELSE viol
 Spec == Init /\ [][Next]_vars
-Report == (l = NRec + 1) => JsonSerialize(IOEnv.OUT, [total |-> NRec, checked |-> nchk, leaking |-> nleak, viol |-> viol, drift |-> drift])
+Report == (l = NRec + 1) => JsonSerialize(IOEnv.OUT, [total |-> NRec, checked |-> nchk, leaking |-> nleak, viol |-> viol, drift |-> drift,
+                                                   classes |-> Cardinality(DOMAIN hist)])
 =============================================================================
